@@ -2,4 +2,162 @@
 
 package probe
 
-func stressRun(r *runner, op Op) *StressRes { return &StressRes{} }
+import (
+	"fmt"
+	"math/rand"
+	"reflect"
+	"sort"
+	"sync"
+
+	"fixt/rec"
+)
+
+// topIDs returns the identities of the object(s) an operation handed out.
+func topIDs(v interface{}) []int64 {
+	if v == nil {
+		return nil
+	}
+	if w, ok := v.(rec.WViewer); ok {
+		rv := reflect.ValueOf(v)
+		if rv.Kind() == reflect.Ptr && rv.IsNil() {
+			return nil
+		}
+		return []int64{w.RecWrapped().Serial}
+	}
+	if o, ok := v.(rec.Viewer); ok {
+		rv := reflect.ValueOf(v)
+		if rv.Kind() == reflect.Ptr && rv.IsNil() {
+			return nil
+		}
+		return []int64{o.RecView().Core.Serial}
+	}
+	if s, ok := v.([]interface{}); ok {
+		var out []int64
+		for _, e := range s {
+			out = append(out, topIDs(e)...)
+		}
+		return out
+	}
+	return nil
+}
+
+// stressRun executes op.Ops concurrently: goroutine g runs ops[g*reps:(g+1)*reps].
+// Goroutines are released from one barrier in a seeded random order; fixtures are in stress mode.
+func stressRun(r *runner, op Op) *StressRes {
+	G, reps := op.G, op.Reps
+	res := &StressRes{Goroutines: G, Serials: map[string][]int64{}, CtxSerials: map[string]map[string][]int64{}}
+	if G*reps > len(op.Ops) {
+		res.Errors = append(res.Errors, "script too short")
+		return res
+	}
+	// contexts are created up front (sequentially) so that their creation is not part of the race surface
+	for _, o := range op.Ops {
+		if o.Ctx != 0 {
+			r.ctx(o.Ctx)
+		}
+	}
+	rng := rand.New(rand.NewSource(op.Seed))
+	order := rng.Perm(G)
+	res.StartOrder = order
+	gates := make([]chan struct{}, G)
+	for i := range gates {
+		gates[i] = make(chan struct{})
+	}
+	type obs struct {
+		key   string
+		svc   string
+		ctx   int
+		ids   []int64
+		err   string
+		pan   string
+		okVal bool
+	}
+	all := make([][]obs, G)
+	var wg sync.WaitGroup
+	rec.SetJitter(true, op.Seed)
+	for g := 0; g < G; g++ {
+		wg.Add(1)
+		go func(g int) {
+			defer wg.Done()
+			<-gates[g]
+			for _, o := range op.Ops[g*reps : (g+1)*reps] {
+				x := Res{noDescribe: true}
+				r.exec(o, &x)
+				ob := obs{key: o.Op + ":" + o.Name, svc: o.Name, ctx: o.Ctx, err: x.Err, pan: x.Panic}
+				if x.Missing {
+					ob.err = "method missing"
+				}
+				if x.raw != nil && x.Err == "" && x.Panic == "" {
+					ob.ids = topIDs(x.raw)
+					ob.okVal = true
+				}
+				all[g] = append(all[g], ob)
+			}
+		}(g)
+	}
+	for _, g := range order {
+		close(gates[g])
+	}
+	wg.Wait()
+	rec.SetJitter(false, 0)
+	seen := map[string]map[int64]bool{}
+	seenCtx := map[string]map[string]map[int64]bool{}
+	okOps := map[string]int{}
+	for g := range all {
+		for _, ob := range all[g] {
+			res.Ops++
+			if ob.pan != "" {
+				res.Panics = append(res.Panics, ob.key+": "+ob.pan)
+				continue
+			}
+			if ob.err != "" {
+				res.Errors = append(res.Errors, ob.key+": "+ob.err)
+				continue
+			}
+			okOps[ob.key]++
+			if seen[ob.key] == nil {
+				seen[ob.key] = map[int64]bool{}
+			}
+			for _, id := range ob.ids {
+				seen[ob.key][id] = true
+			}
+			if ob.ctx != 0 {
+				if seenCtx[ob.key] == nil {
+					seenCtx[ob.key] = map[string]map[int64]bool{}
+				}
+				lbl := fmt.Sprint(ob.ctx)
+				if seenCtx[ob.key][lbl] == nil {
+					seenCtx[ob.key][lbl] = map[int64]bool{}
+				}
+				for _, id := range ob.ids {
+					seenCtx[ob.key][lbl][id] = true
+				}
+			}
+		}
+	}
+	flat := func(m map[int64]bool) []int64 {
+		var out []int64
+		for id := range m {
+			out = append(out, id)
+		}
+		sort.Slice(out, func(i, j int) bool { return out[i] < out[j] })
+		return out
+	}
+	for k, m := range seen {
+		res.Serials[k] = flat(m)
+	}
+	for k, byCtx := range seenCtx {
+		res.CtxSerials[k] = map[string][]int64{}
+		for l, m := range byCtx {
+			res.CtxSerials[k][l] = flat(m)
+		}
+	}
+	res.OKOps = okOps
+	sort.Strings(res.Errors)
+	sort.Strings(res.Panics)
+	if len(res.Errors) > 200 {
+		res.Errors = res.Errors[:200]
+	}
+	res.Counts = rec.Counts()
+	return res
+}
